@@ -86,6 +86,27 @@ def module_include(name, p, pos, attrs=()):
     return base[:start] + f"ascent_source! {{ {name}_src:\n      {src}\n   }}\n   ascent! {{\n      {body}\n   }}\n   " + base[end:]
 
 
+def module_include_redecl(name, p, rng):
+    """the included source declares a relation WITH an initialiser; the including program declares it again, plainly, AFTER the `include_source!`:
+    the source is pasted in place, so the later (plain) declaration must win and the relation must start empty"""
+    nm = eng.Names()
+    r = redecl_rel(p, rng)
+    ar = p["rels"][r]["arity"]
+    bogus = "(" + "".join("9," for _ in range(ar)) + ")"
+    n = len(p["rules"])
+    k = max(1, n // 2)
+    decls = eng.rs_decls(p, nm)
+    src = "\n      ".join([decls[r].replace(";", f" = vec![{bogus}];")] + [eng.rs_rule(p, ru, nm) for ru in p["rules"][:k]])
+    restl = [eng.rs_rule(p, ru, nm) for ru in p["rules"][k:]]
+    cut = len(restl) // 2
+    inner = restl[:cut] + [f"include_source!({name}_src);", decls[r]] + restl[cut:]
+    body = "\n      ".join(["pub struct Prog;"] + [d for i, d in enumerate(decls) if i != r] + inner)
+    base = eng.rs_module(name, p)
+    start = base.index("ascent! {")
+    end = base.index("pub struct Inst")
+    return base[:start] + f"ascent_source! {{ {name}_src:\n      {src}\n   }}\n   ascent! {{\n      {body}\n   }}\n   " + base[end:]
+
+
 def redecl_rel(p, rng):
     return rng.below(len(p["rels"]))
 
@@ -151,6 +172,7 @@ def build(rng, tier):
                     (f"{pid}_both", eng.rs_module(f"{pid}_both", p, attrs=("measure_rule_times", "generate_run_timeout")), "both-attrs"),
                     (f"{pid}_par", eng.rs_module(f"{pid}_par", p, macro="ascent_par"), "ascent_par"),
                     (f"{pid}_redecl", module_redecl(f"{pid}_redecl", p, rng.fork(pid + "rd")), "redeclared"),
+                    (f"{pid}_incrd", module_include_redecl(f"{pid}_incrd", p, rng.fork(pid + "rd")), "redeclared after include_source"),
                     (f"{pid}_gen", module_generic(f"{pid}_gen", p), "generic-struct")]
         for pos in ("first", "middle", "last"):
             variants.append((f"{pid}_inc{pos}", module_include(f"{pid}_inc{pos}", p, pos), f"include_source-{pos}"))
@@ -165,7 +187,7 @@ def build(rng, tier):
             for vid, text, kind in variants:
                 if kind == "initialised": continue
                 inst = f"{vid}_{j}"
-                if kind == "redeclared" and j % 2 == 1:
+                if kind.startswith("redeclared") and j % 2 == 1:
                     # the re-declared relation is NOT loaded: it must start empty (the later declaration has no initialiser), not from the earlier one's rows
                     rr = redecl_rel(p, rng.fork(pid + "rd"))
                     inp2 = {r: (rows if r != rr else []) for r, rows in inp.items()}
